@@ -169,7 +169,7 @@ def check_imputer(run, st, x, model_calls, model, observed_cat, rnd, tag, replay
             for sub in subsets[:(1 if light else 6)]:
                 n = rnd.choice([1, 3])
                 x0 = dict(x)
-                res_before = {} if light else {f: {k: [id(d) for d in r.get_data()[0]] for k, r in st.data_reservoirs[f].items()} for f in feats}
+                res_before = {} if light else {f: {k: [tuple(sorted(d.items())) for d in r.get_data()[0]] for k, r in st.data_reservoirs[f].items()} for f in feats}
                 names_before = {} if light else {f: leaf_names(st, f)[0] for f in feats}
                 del model_calls[:]
                 try:
@@ -185,7 +185,7 @@ def check_imputer(run, st, x, model_calls, model, observed_cat, rnd, tag, replay
                     run.violation("imputer-result-count", f"{tag}: {len(out) if hasattr(out, '__len__') else out} predictions / {len(model_calls)} evaluations for n_samples={n}", rp)
                 if x != x0:
                     run.violation("imputer-modified-instance", f"{tag}: x changed", rp)
-                res_after = {} if light else {f: {k: [id(d) for d in r.get_data()[0]] for k, r in st.data_reservoirs[f].items()} for f in feats}
+                res_after = {} if light else {f: {k: [tuple(sorted(d.items())) for d in r.get_data()[0]] for k, r in st.data_reservoirs[f].items()} for f in feats}
                 if res_after != res_before or (not light and {f: leaf_names(st, f)[0] for f in feats} != names_before):
                     run.violation("imputer-modified-storage", f"{tag}: reservoirs or trees changed during impute", rp)
                 for xi in model_calls:
@@ -280,7 +280,7 @@ def main(run):
             if poll:       # explain (impute around the instance) BEFORE it enters the storage ...
                 check_imputer(run, st, x, model_calls, model, observed_cat, prnd, f"{tag0} step {i} (before its update)",
                               {"config": tag0, "seed": seed, "step": i}, imps=imps)
-            seen_ids[id(x)] = (x, dict(x))
+            seen_ids[tuple(sorted(x.items()))] = (x, dict(x))
             for c in observed_cat:
                 observed_cat[c].add(x[c])
             keys_before = {f: set(st.data_reservoirs[f].keys()) for f in feats}
@@ -323,8 +323,8 @@ def main(run):
                         run.violation("reservoir-capacity", f"{tag}: reservoir of {f!r} holds {len(data)} > {L}", replay)
                         stop = True
                     for dpt in data:
-                        ent = seen_ids.get(id(dpt))
-                        if ent is None or ent[0] is not dpt or dpt != ent[1] or set(dpt.keys()) != set(feats):
+                        ent = seen_ids.get(tuple(sorted(dpt.items()))) if isinstance(dpt, dict) else None      # (by value: a copy of an observed point is that point)
+                        if ent is None or dpt != ent[1] or set(dpt.keys()) != set(feats):
                             run.violation("reservoir-entry-not-observed", f"{tag}: reservoir of {f!r} holds {dpt!r} which is not a previously "
                                                                           f"observed complete data point", replay)
                             stop = True
@@ -333,7 +333,7 @@ def main(run):
                 xi = {k: v for k, v in x.items() if k != f}
                 lid = st.get_path_through_tree(tree._root, xi)
                 r = st.data_reservoirs[f].get(lid)
-                if r is None or not any(dpt is x for dpt in r.get_data()[0]):
+                if r is None or not any(dpt is x or dpt == x for dpt in r.get_data()[0]):
                     run.violation("newest-not-in-its-leaf", f"{tag}: newest observation is not in the reservoir of the leaf it is routed to "
                                                             f"for feature {f!r}", replay)
                     stop = True
